@@ -169,6 +169,13 @@ Qed.
 
 End Step.
 
+Lemma prediction_is_batch N (j : joint N) a Q p (f : frec p) :
+  filtered j a Q -> step_spec a Q f ->
+  let j' := jpredict p j in
+  f_a0 f = cond_mean (j_ma j') (j_mY j') (j_CaY j') (j_CYY j') (j_Y j')
+  /\ f_Q0 f = cond_cov (j_Caa j') (j_CaY j') (j_CYY j').
+Proof. by move=> fj sp; split; [exact: (pred_mean fj sp) | exact: (pred_cov fj sp)]. Qed.
+
 Lemma filtered_sym N (j : joint N) a Q : filtered j a Q -> is_sym Q.
 Proof.
 case=> _ -> sC sY _; apply: sym_sub => //.
